@@ -94,6 +94,7 @@ viol(const char *api, int n, int pos, const char *site, const char *detail, long
         rec_end();
 }
 static long long n_jobs_checked;
+static IMB_JOB SNAP[MAXN + 4]; /* descriptor as filled, per slot (C14: handed back unaltered) */
 static void
 check_slot(const char *api, int n, int slot, const IMB_JOB *j)
 {
@@ -104,6 +105,24 @@ check_slot(const char *api, int n, int slot, const IMB_JOB *j)
         if (!j || j->status != IMB_STATUS_COMPLETED) {
                 viol(api, n, slot, "not-completed", "job not COMPLETED through this entry point", j ? (long) j->status : -1);
                 return;
+        }
+        { /* C14: caller-owned descriptor fields unchanged through every entry point */
+                IMB_JOB a = *j, b = SNAP[slot];
+                a.status = b.status = 0;
+                int ha = a.hash_alg;
+                if (ha == IMB_AUTH_AES_CMAC || ha == IMB_AUTH_AES_CMAC_256 || ha == IMB_AUTH_AES_CMAC_BITLEN)
+                        a.msg_len_to_hash_in_bytes = b.msg_len_to_hash_in_bytes = 0; /* documented bytes->bits rewrite */
+                if (a.cipher_mode == IMB_CIPHER_SNOW_V_AEAD)
+                        a.u.SNOW_V_AEAD.reserved = b.u.SNOW_V_AEAD.reserved = NULL;
+                if (memcmp(&a, &b, sizeof a)) {
+                        size_t k = 0;
+                        while (((uint8_t *) &a)[k] == ((uint8_t *) &b)[k])
+                                k++;
+                        const char *save = g_property;
+                        g_property = "C14";
+                        viol(api, n, slot, "descriptor-modified", "job descriptor changed between submission and hand-back (x = byte offset)", (long) k);
+                        g_property = save;
+                }
         }
         if (EXP_MASK[item] & 1) {
                 const uint8_t *got = it.dst;
@@ -131,6 +150,7 @@ run_job_api(int nocheck)
                 mk(&it, i, i);
                 alg_fill(m, j, &it);
                 j->user_data = (void *) (long) (i + 1);
+                SNAP[i] = *j;
                 IMB_JOB *r = nocheck ? X_SUBMIT_NOCHECK(m) : X_SUBMIT(m);
                 while (r) {
                         int s = (int) (long) r->user_data - 1;
@@ -167,6 +187,7 @@ run_async_burst(int n, int nocheck)
                 alg_fill(m, jobs[i], &it);
                 jobs[i]->user_data = (void *) (long) (i + 1);
                 imb_set_session(m, jobs[i]);
+                SNAP[i] = *jobs[i];
         }
         uint32_t r = nocheck ? X_SUBMIT_BURST_NOCHECK(m, (uint32_t) n, jobs) : X_SUBMIT_BURST(m, (uint32_t) n, jobs);
         if (imb_get_errno(m))
@@ -218,6 +239,7 @@ run_sync_burst(int n, int nocheck)
                 mk(&it, i, i % NIT);
                 alg_fill(m, &JA[i], &it);
                 JA[i].user_data = (void *) (long) (i + 1);
+                SNAP[i] = JA[i];
         }
         uint32_t r;
         IMB_CIPHER_DIRECTION d = g_dir ? IMB_DIR_ENCRYPT : IMB_DIR_DECRYPT;
